@@ -255,6 +255,11 @@ def havoc_for_call(ex, st, pre, items, ctor_ghost=()):
                 if name != '$alloc' and name != '$srcs':
                     st.heap[name] = fresh('hv_' + name, st.heap[name].sort)
             continue
+        if kind == 'field':
+            obj, fname = v
+            name, fpt, arr = ex.field_arr(st, obj.pt.args[0], fname)
+            st.heap[name] = Store(st.heap[name], obj.t, fresh('hf_' + fname, sort_of(fpt)))
+            continue
         if kind == 'ref':
             if v.pt.kind == 'none':
                 continue
